@@ -135,6 +135,7 @@ def describe(m):
 class Tables:
     def __init__(self):
         self.sq, self.log, self.exp, self.log1p, self.ipl, self.ib = {}, {}, {}, {}, {}, {}
+        self.log10, self.ndtri, self.normpdf = {}, {}, {}
 
     def note_message(self, m):
         """every sigma of a scalar NormalMessage may be squared by calc_natural_parameters"""
@@ -157,7 +158,9 @@ class Tables:
     def dump(self):
         return {"sq": sorted(self.sq.items()), "log": sorted(self.log.items()), "exp": sorted(self.exp.items()),
                 "log1p": sorted(self.log1p.items()), "ipl": sorted(self.ipl.items()),
-                "ib": [[k[0], k[1], v[0], v[1]] for k, v in sorted(self.ib.items())]}
+                "ib": [[k[0], k[1], v[0], v[1]] for k, v in sorted(self.ib.items())],
+                "log10": sorted(self.log10.items()), "ndtri": sorted(self.ndtri.items()),
+                "normpdf": sorted(self.normpdf.items())}
 
 
 def evaluate(e, env, tabs):
@@ -402,7 +405,66 @@ def run_dens(c):
     return out
 
 
+# --------------------------------------------------------------------------- det
+def mirror_tdet(stack, x, tabs):
+    """independent sequential re-computation of _transform_det for key derivation; values from the libraries"""
+    from scipy.special import ndtri as sp_ndtri
+    from scipy.stats._continuous_distns import _norm_pdf
+    x = float(x)
+    for t in reversed(stack):
+        if t[0] == "shift":
+            tabs.add_log(unhex(t[2]))
+            x = (x - unhex(t[1])) / unhex(t[2])
+        elif t[0] == "log":
+            tabs.add_log(x)
+            tabs.add_log(1 / x)
+            x = float(np.log(x))
+        elif t[0] == "exp":
+            tabs.add_exp(x)
+            e = float(np.exp(x))
+            tabs.add_log(e)
+            x = e
+        elif t[0] == "log10":
+            tabs.log10[hexf(x)] = hexf(np.log10(x))
+            tabs.add_log(10.0)
+            tabs.add_log((1 / x) / float(np.log(10)))
+            x = float(np.log10(x))
+        elif t[0] == "phi":
+            f = float(sp_ndtri(x))
+            tabs.ndtri[hexf(x)] = hexf(f)
+            pdf = float(_norm_pdf(f))
+            tabs.normpdf[hexf(f)] = hexf(pdf)
+            tabs.add_log(1 / pdf)
+            x = f
+
+
+def run_det(c):
+    m = build(c["msg"])
+    dist = base_dist(m.base_message)
+    out = {"desc": describe(m), "points": [], "y": [], "logd": [], "factor": [], "base_lp": [], "fd_logd": []}
+    tabs = Tables()
+    stack = out["desc"]["t"]["stack"]
+    lo, hi = [float(v) for v in m._support[0]]
+    for q in c["q"]:
+        x = float(m._inverse_transform(np.float64(dist.ppf(q))))
+        mirror_tdet(stack, x, tabs)
+        y, logd = m._transform_det(x)
+        out["points"].append(hexf(x))
+        out["y"].append(hexf(y))
+        out["logd"].append(hexf(logd))
+        out["factor"].append(hexf(m.factor(x)))
+        out["base_lp"].append(hexf(m.base_message.logpdf(y)))
+        # independent estimate of log T'(x) by a central difference of the transform itself
+        h = 1e-6 * (min(x - lo, hi - x) if math.isfinite(lo) and math.isfinite(hi) else (x - lo if math.isfinite(lo) else max(1.0, abs(x))))
+        d = (float(m._transform(x + h)) - float(m._transform(x - h))) / (2 * h)
+        out["fd_logd"].append(hexf(math.log(d)) if d > 0 else "nan")
+    out["tabs"] = tabs.dump()
+    return out
+
+
 def run_case(c):
+    if c["kind"] == "det":
+        return run_det(c)
     if c["kind"] == "alg":
         return run_alg(c)
     if c["kind"] == "proj":
